@@ -391,6 +391,9 @@ func Unmarshal(b []byte, value interface{}) error {
 // UnmarshalWithParams allows field parameters to be specified for the
 // top-level element. The form of the params is the same as the field tags.
 func UnmarshalWithParams(b []byte, value interface{}, params string) error {
-	v := reflect.ValueOf(value).Elem()
-	return ParseField(v, b, parseFieldParameters(params))
+	p := reflect.ValueOf(value)
+	if p.Kind() != reflect.Ptr || p.IsNil() {
+		return fmt.Errorf("ber: Unmarshal needs a non-nil pointer, not %T", value)
+	}
+	return ParseField(p.Elem(), b, parseFieldParameters(params))
 }
